@@ -512,6 +512,7 @@ REAL_FUNCTION_MODELS = {}
 
 
 STR_JOIN_HOOK = None
+BYTES_JOIN_HOOK = None
 
 
 def call_builtin(it, f, args, kwargs, node):
@@ -540,6 +541,9 @@ def call_builtin(it, f, args, kwargs, node):
         if isinstance(selfobj, (list, dict, set)):
             return container_method(it, selfobj, f.__name__, args, kwargs, node)
         if isinstance(selfobj, (str, bytes, int, tuple, frozenset)) or selfobj is None or isinstance(selfobj, types.ModuleType):
+            if isinstance(selfobj, bytes) and f.__name__ == 'join' and BYTES_JOIN_HOOK is not None and len(args) == 1 \
+                    and not isinstance(args[0], (list, tuple)):
+                return BYTES_JOIN_HOOK(it, selfobj, args[0])
             if isinstance(selfobj, str) and f.__name__ == 'join' and STR_JOIN_HOOK is not None and len(args) == 1 \
                     and isinstance(args[0], (list, tuple)) and any(hasattr(p, 'label') or hasattr(p, 'kind') for p in args[0]):
                 return STR_JOIN_HOOK(it, selfobj, list(args[0]))
@@ -682,6 +686,9 @@ def value_method(it, tag, selfv, args, kwargs, node):
             return '<hex>'
         if name == 'tobytes':
             return m_bytes(it, [v], {}, node)
+        if name == 'join' and BYTES_JOIN_HOOK is not None and len(args) == 1 and not isinstance(args[0], (list, tuple)) \
+                and isinstance(simp(zint(v.length)), int) and simp(zint(v.length)) == 0:
+            return BYTES_JOIN_HOOK(it, b'', args[0])
         if name == 'decode':
             USED.add('bytes.decode (opaque text with ghost utf-8 bytes; UnicodeDecodeError possible)')
             if it.run.branch(it.run.fresh_bool('utf8_invalid'), 'decode.invalid'):
